@@ -320,6 +320,7 @@ void EventQueue::Archive(Archiver& arc)
             EventQueueNode* const node = new EventQueueNode();
             Event* const e = new Event();
             e->Archive(arc);
+            node->event = e;
 
             arc.ArchiveInt64(node->time);
             arc.ArchiveUInt32(node->flags);
